@@ -46,7 +46,17 @@ def u16(s):
 
 
 def h8(b):
-    return bytes(b).hex() or '-'
+    """C-string field: hex bytes, '-' = empty string, '~' = the NULL POINTER (field value None)"""
+    return '~' if b is None else (bytes(b).hex() or '-')
+
+
+def h16p(b):
+    """the same field for the model driver (UTF-16 of the same ASCII bytes, '~' = null)"""
+    return '~' if b is None else h16(list(b))
+
+
+def ln(x):
+    return 0 if x is None else len(x)
 
 
 def un16(h):
@@ -62,7 +72,8 @@ def show8(b):
 
 
 class Req:
-    """one harness request; string fields are lists of code units / bytes"""
+    """one harness request; string fields are lists of code units / bytes; cat / file / func may be None = the
+    NULL POINTER (QMessageLogContext{nullptr, 0, nullptr, nullptr}: release builds, QML callers, LogMessage())"""
     STR16 = ('pattern', 'msg', 'rules')
     STR8 = ('cat', 'file', 'func')
 
@@ -71,6 +82,7 @@ class Req:
         self.f = dict(pattern=[], msg=[], rules=[], cat=[], file=[], func=[], type=0, line=1, attrs=[], flag=0, maxw=15,
                       items=[], idx=0)
         self.f.update(kw)
+        self.answer_units = None     # size of a TOOBIG answer (set when reported)
 
     def line(self):
         f = self.f
@@ -94,7 +106,7 @@ class Req:
     def model_line(self):
         """input of build/m_safety (pattern mode): category and file as UTF-16 (ASCII in the diffed inputs)"""
         f = self.f
-        s = '%s %d %s %s %s %s %d %d' % (h16(f['pattern']), f['type'], h16(f['msg']), h16(list(f['cat'])), h16(list(f['file'])),
+        s = '%s %d %s %s %s %s %d %d' % (h16(f['pattern']), f['type'], h16(f['msg']), h16p(f['cat']), h16p(f['file']),
                                          h8(f['func']), f['line'], len(f['attrs']))
         for k, v in f['attrs']:
             s += ' %s %s' % (h16(k), h16(v))
@@ -102,8 +114,8 @@ class Req:
 
     def size(self):
         f = self.f
-        return sum(len(f[k]) for k in ('pattern', 'msg', 'rules', 'cat', 'file', 'func')) + sum(len(k) + len(v) for k, v in f['attrs']) \
-            + sum(len(c) + len(m) for _, c, m in f['items'])
+        return sum(ln(f[k]) for k in ('pattern', 'msg', 'rules', 'cat', 'file', 'func')) + sum(len(k) + len(v) for k, v in f['attrs']) \
+            + sum(ln(c) + len(m) for _, c, m in f['items'])
 
     def describe(self):
         f = self.f
@@ -114,12 +126,17 @@ class Req:
         for k in self.STR8:
             if f[k]:
                 d[k] = show8(f[k][:400])
+            elif f[k] is None:
+                d[k] = None
+        d['null_pointers'] = [k for k in self.STR8 if f[k] is None]
         d['type'] = f['type']
         if f['attrs']:
             d['attrs'] = [[show16(k), show16(v[:100])] for k, v in f['attrs']]
         if f['items']:
-            d['items'] = [[t, show8(c[:60]), show16(m[:60])] for t, c, m in f['items'][:8]]
+            d['items'] = [[t, None if c is None else show8(c[:60]), show16(m[:60])] for t, c, m in f['items'][:8]]
         d['sizes'] = {k: len(f[k]) for k in ('pattern', 'msg', 'rules', 'cat', 'file', 'func') if f[k]}
+        if self.answer_units is not None:
+            d['answer_units'] = self.answer_units
         return d
 
     def copy(self, **kw):
@@ -176,6 +193,48 @@ def gen_sig_long(rng, target):
             parts.append(p); n += len(p) or 1
         s = b''.join(parts)
     return s[:target]
+
+
+# function texts of which only '*', '&' and blanks remain once the return type is cut off (or that consist of nothing
+# else): the strip loop `while (startsWith('*') || startsWith('&') || startsWith(' '))` must stop at the end of the text
+STRIP_RET = [b'int', b'void', b'const T', b'A<B>', b'std::vector<int>', b'unsigned long', b'auto', b'x', b'', b'T&', b'ns::C']
+STRIP_FIXED = [b'int *', b'&', b'const T & ', b'void *(int)', b'**&&**', b'int &', b'T *&', b'int * ', b'a  *', b' ', b'*', b'& &',
+               b'int *()', b'A<B> *', b'char **', b'  ', b' *', b'* ', b'int &(int) const', b'void *(*)(int)', b'int * [with T = int]',
+               b'const T & (int)', b'int **&', b'a &', b'void * const', b'int *&()::', b'T & noexcept']
+
+
+def strip_family(rng, n):
+    out = list(STRIP_FIXED)
+    for _ in range(n):
+        marks = bytes(rng.choice(b'*& ') for _ in range(rng.randint(1, 6)))
+        out.append(rng.choice(STRIP_RET) + rng.choice([b' ', b' ', b'  ', b'']) + marks +
+                   rng.choice([b'', b'', b'', b'(int)', b'()', b'(int) const', b' const', b'(*)(int)', b'<T>', b'(int, char**)', b' [with T = int]']))
+    return out
+
+
+# format widths of 10 and more digits: none fits an int, so none is a width (QString::toInt fails, the placeholder is
+# printed back as an unknown attribute); a digit-by-digit parser into an int overflows on them, and the wrapped value
+# (2^32+5 -> 5, 2^32+2 -> 2, 10*2^32+8 -> 8, 9999999999 -> 1410065407, 2^32+4096 ...) would be USED as the width
+BIG_WIDTHS = ['4294967301', '4294967298', '42949672968', '9999999999', '2147483648', '4294967296', '4294967295', '10000000000',
+              '99999999999', '999999999999', '4294971392', '6442450949', '00000000004294967301', '18446744073709551621',
+              '2147483649', '4294967297', '3000000000', '21474836470']
+WIDTH_FORMS = ['<%s', '%s!', '_>%s', '>%s', '^%s', '*^%s!', '0<%s!', '<%s!']
+WIDTH_TOKENS = ['message', 'type', 'func', 'file', 'shortfile', 'category', 'line', 'a', 'a?', 'function']
+
+
+def width_family(rng, n):
+    pats = ['%%{message:%s}' % (f % w) for w in BIG_WIDTHS for f in WIDTH_FORMS[:3]]
+    for _ in range(n):
+        k = rng.randint(10, 13)
+        w = rng.choice(BIG_WIDTHS) if rng.random() < 0.5 else str(rng.randint(1, 9)) + ''.join(rng.choice('0123456789') for _ in range(k - 1))
+        if int(w) <= INT_MAX:
+            w = str(int(w) + (1 << 32))
+        p = '%%{%s:%s}' % (rng.choice(WIDTH_TOKENS), rng.choice(WIDTH_FORMS) % w)
+        if rng.random() < 0.3:
+            p = '[' + p + '] %{message:<4}'
+        pats.append(p)
+    return [Req('P', pattern=u16(p), type=rng.randrange(5), msg=u16('hello'), cat=list(b'app'), file=list(b'/src/main.cpp'),
+                func=list(b'int main(int, char**)'), line=7, attrs=[(u16('a'), u16('v'))]) for p in pats]
 
 
 UNITS_SPECIAL = [0x25, 0x7b, 0x7d, 0x3a, 0x3f, 0x2c, 0x21, 0x3c, 0x3e, 0x5e, 0x20, 0x200b, 0x200c, 0xfeff, 0xe9, 0x4e2d,
@@ -271,6 +330,14 @@ def gen_attrs(rng, maxlen):
     return at
 
 
+P_NULL = 0.07    # probability of the null pointer for each of file / function / category in the random families
+
+
+def or_null(rng, v, p=P_NULL):
+    """a C-string value or - first-class - the NULL POINTER"""
+    return None if rng.random() < p else list(v)
+
+
 def gen_pattern_req(rng, diffable, maxlen=40):
     pat, hist = gen_pattern(rng, diffable)
     if diffable:
@@ -278,9 +345,46 @@ def gen_pattern_req(rng, diffable, maxlen=40):
     else:
         cat = bytes(rng.randrange(1, 256) for _ in range(rng.randint(0, 20))) if rng.random() < 0.5 else rng.choice(ASCII_CATS)
         fil = bytes(rng.randrange(1, 256) for _ in range(rng.randint(0, 40))) if rng.random() < 0.5 else rng.choice(ASCII_PATHS)
-    r = Req('P', pattern=u16(pat), type=rng.randrange(5), msg=gen_text(rng, maxlen), cat=list(cat), file=list(fil),
-            func=list(gen_sig(rng, 8)), line=rng.choice([0, 1, 42, 99999, INT_MAX, -1, -INT_MAX - 1]), attrs=gen_attrs(rng, maxlen))
+    r = Req('P', pattern=u16(pat), type=rng.randrange(5), msg=gen_text(rng, maxlen), cat=or_null(rng, cat), file=or_null(rng, fil),
+            func=or_null(rng, gen_sig(rng, 8)), line=rng.choice([0, 1, 42, 99999, INT_MAX, -1, -INT_MAX - 1]), attrs=gen_attrs(rng, maxlen))
     return r, hist
+
+
+SWEEP_SPECS = ['', '', ':<8', ':*^9!', ':3!', ':>2', ':_>12', ':^1!']
+
+
+def null_sweep(rng, names):
+    """every placeholder x every combination of null file / function / category pointers (at least one null)"""
+    out = []
+    for name in names:
+        for combo in range(1, 8):
+            p = '%{' + name + rng.choice(SWEEP_SPECS) + '}'
+            if rng.random() < 0.25:
+                p = rng.choice(['[', '%{type} ', '%{a?1}']) + p + rng.choice([']', ' %{message}', '%{b?,2}x'])
+            out.append(Req('P', pattern=u16(p), type=rng.randrange(5), msg=u16('hello'),
+                           file=None if combo & 1 else list(rng.choice(ASCII_PATHS)),
+                           func=None if combo & 2 else list(rng.choice(REAL)),
+                           cat=None if combo & 4 else list(rng.choice(ASCII_CATS)),
+                           line=rng.choice([0, 0, 42]), attrs=gen_attrs(rng, 10)))
+    return out
+
+
+def null_sweep_other(rng):
+    """the other formatters and the category filter on null pointers"""
+    out = []
+    for combo in range(1, 8):
+        kw = dict(type=rng.randrange(5), msg=u16('hello'), file=None if combo & 1 else list(b'/src/main.cpp'),
+                  func=None if combo & 2 else list(b'int main()'), cat=None if combo & 4 else list(b'app'), line=0, attrs=gen_attrs(rng, 10))
+        out += [Req('J', flag=0, **kw), Req('J', flag=1, **kw), Req('S', **kw)]
+    for rules in ['', '*=false', 'app.*=false;*=true', '*.debug=false', '=true', 'default=false', '**=false']:
+        out.append(Req('C', rules=u16(rules), type=rng.randrange(5), cat=None))
+    for colorize in (0, 1):
+        for maxw in (0, 15, 2):
+            items = [(rng.randrange(5), None, u16('a')), (rng.randrange(5), list(b'app.network'), u16('b')), (rng.randrange(5), None, []),
+                     (rng.randrange(5), list(b'default'), u16('c'))]
+            rng.shuffle(items)
+            out.append(Req('Y', flag=colorize, maxw=maxw, items=items))
+    return out
 
 
 RULE_FR = ['*', '.', '=', 'true', 'false', ';', '\n', ' ', 'app', 'qt', '.debug', '.info', '.warning', '.critical', '.fatal', '*.*',
@@ -321,17 +425,30 @@ def star_family(rng, thorough):
 
 
 # --------------------------------------------------------------------------------- guarded execution
-SAN_ENV = {'ASAN_OPTIONS': 'detect_leaks=0:abort_on_error=0:print_summary=1', 'UBSAN_OPTIONS': 'print_stacktrace=0:halt_on_error=1'}
+# damage control, whatever the library does with an input: the sanitized process refuses a single allocation above 1 GiB
+# (ASan reports it) and is aborted above 6 GiB resident; the plain process gets a 3 GiB address space (a larger
+# request ends in std::bad_alloc -> 'crash').  The unchanged library allocates a few MiB on the generated inputs.
+SAN_ENV = {'ASAN_OPTIONS': 'detect_leaks=0:abort_on_error=0:print_summary=1:max_allocation_size_mb=1024:hard_rss_limit_mb=6144',
+           'UBSAN_OPTIONS': 'print_stacktrace=0:halt_on_error=1'}
+PLAIN_WRAP = ['bash', '-c', 'ulimit -v 3145728; exec "$0"']
+MAX_SLOW = 4              # over-budget answers after which one harness run is abandoned (the rest is 'skipped')
 
 
 def run_guarded(exe, lines, budget=BUDGET_S, env=None, wrap=None, margin=3.0):
     """Feed request lines to a harness process, restarting after every crash / hang.
-    Returns a list of (status, out, usec, report): status in ok|crash|timeout."""
+    Returns a list of (status, out, usec, report): status in ok|crash|timeout|skipped.
+    No request can hold the check longer than budget + margin: the deadline is per request and also covers an
+    answer that trickles in; an answer above 64 MiB is a 'timeout' (the harness itself caps answers at 8 Mi units);
+    after 3 hangs, 60 crashes or MAX_SLOW over-budget answers the rest of the list is 'skipped' (the caller
+    reports the culprits it has)."""
     res = [None] * len(lines)
     start = 0
     restarts = 0
     hangs = 0
-    while start < len(lines) and restarts < 60 and hangs < 3:
+    slow = 0
+    if wrap is None and not env:
+        wrap = PLAIN_WRAP
+    while start < len(lines) and restarts < 60 and hangs < 3 and slow < MAX_SLOW:
         chunk = lines[start:]
         data = ('\n'.join(chunk) + '\n').encode()
         errf = tempfile.TemporaryFile()
@@ -376,13 +493,16 @@ def run_guarded(exe, lines, budget=BUDGET_S, env=None, wrap=None, margin=3.0):
                     us = -1
                 res[start + got] = ('ok', t[1] if len(t) > 1 else '', us, '')
                 got += 1
+                slow += us > budget * 1e6
+            if slow >= MAX_SLOW:
+                break
         try:
             p.kill()
         except Exception:
             pass
         p.wait()
         th.join(timeout=1)
-        if status == 'ok' or got >= len(chunk):
+        if status == 'ok' or got >= len(chunk) or slow >= MAX_SLOW:
             errf.close()
             break
         errf.seek(0)
@@ -435,12 +555,27 @@ def bad_on(exe, req, env=None, budget=None, margin=3.0):
     return None
 
 
+def in_scope(req):
+    """generated widths are capped (finding F6: a VALID width near INT_MAX is a request for gigabytes, probed apart); a
+    shrinking step must not slide from the defect at hand into that one: no placeholder of a candidate may carry a width
+    text whose value fits an int and exceeds WIDTH_CAP"""
+    import re
+    pt = ''.join(chr(u) if u < 128 else '?' for u in req.f['pattern'])
+    for ph in re.findall(r'%\{([^}]*)\}', pt):
+        if ':' not in ph:
+            continue
+        m = re.search(r'([0-9]+)!?$', ph.rsplit(':', 1)[1])
+        if m and WIDTH_CAP < int(m.group(1)) <= INT_MAX:
+            return False
+    return True
+
+
 def shrink_req(req, still_bad0, budget_steps=120, wall_s=25.0):
     """greedy shrinking of the string fields of a request, largest first, within a wall-clock allowance"""
     deadline = time.time() + wall_s
 
     def still_bad(c):
-        return time.time() < deadline and still_bad0(c)
+        return time.time() < deadline and in_scope(c) and still_bad0(c)
     cur = req
     fields = sorted([k for k in Req.STR16 + Req.STR8 if cur.f[k]], key=lambda k: -len(cur.f[k]))
     for k in fields:
@@ -458,6 +593,26 @@ def shrink_req(req, still_bad0, budget_steps=120, wall_s=25.0):
 
 
 # --------------------------------------------------------------------------------- the check
+def toobig(out):
+    """size (code units) of an answer the harness refused to hex-encode, or None"""
+    return int(out[7:]) if out and out.startswith('TOOBIG:') else None
+
+
+def answer_bound(rq):
+    """a sound upper bound (code units) of the answer to a request when no model value is at hand.  PatternFormatter:
+    every placeholder needs >= 4 pattern units and yields at most max(largest int-valued number in the pattern, longest
+    value) units, literals at most the pattern; JSON / Sentry: escaped copies of the fields plus fixed keys;
+    Pretty: fields + padding up to maxCategoryWidth + colour codes."""
+    import re
+    f = rq.f
+    longest = max([len(f['msg']), ln(f['file']), ln(f['func']), ln(f['cat']), 24] + [len(v) for _, v in f['attrs']])
+    if rq.cmd == 'P':
+        nums = [int(x) for x in re.findall(r'[0-9]+', ''.join(chr(u) if u < 128 else ' ' for u in f['pattern']))]
+        w = max([0] + [x for x in nums if x <= INT_MAX])
+        return len(f['pattern']) + (len(f['pattern']) // 4 + 1) * max(w, longest)
+    return 12 * rq.size() + 4096 + abs(f['maxw']) * (len(f['items']) + 1)
+
+
 def total_width(pattern):
     import re
     return sum(int(w) for w in re.findall(r':.?[<>^](\d+)!?\}', pattern))
@@ -473,7 +628,10 @@ def run():
                    'extraction ExtrOcamlBasic, no Extract Constant; ocaml/drv_cleanup.ml, ocaml/drv_safety.ml',
                    'harness/h_safety.cpp; g++ 12 AddressSanitizer + UndefinedBehaviorSanitizer (-fno-sanitize-recover=all)',
                    'NOT modelled (sanitizer + time budget only): PCRE2/QRegularExpression, QJsonDocument, QDateTime, Qt allocation']
-    chk.assumptions = ['C strings (function, file, category) end at the first NUL: generated bytes are 1..255',
+    chk.assumptions = ['C strings (function, file, category) end at the first NUL: generated bytes are 1..255; each of the three may also be the '
+                       'NULL POINTER (first-class value in every family)',
+                       'every harness process is resource-limited (plain: 3 GiB address space; sanitized: 1 GiB per allocation, 6 GiB RSS); '
+                       'answers above 8 Mi code units are reported by size, not content',
                        'generated format widths and removal counts are capped at %d (uncapped cases are probed separately: F6, pending counter)' % WIDTH_CAP,
                        'model comparison for inputs <= 4 KiB; longer inputs (<= 64 KiB) are run on the sanitized implementation only',
                        'file and category are ASCII in the diffed inputs (UTF-8 decoding is Qt code)',
@@ -493,10 +651,13 @@ def run():
     sigs = [bytes(x for x in s if x) for s in (gen_sig(rng) for _ in range(n_short))]
     sigs += [bytes(x for x in gen_sig(rng, 120) if x) for _ in range(400 if thorough else 60)]
     sigs += [gen_sig_long(rng, rng.choice([256, 700, 1500, 4096])) for _ in range(60 if thorough else 10)]
+    strip_sigs = strip_family(rng, 1500 if thorough else 150)
+    sigs += strip_sigs
     corpus = os.path.join(vlib.VERIF, 'corpus', 'C14', 'signatures.txt')
     if os.path.exists(corpus):
         sigs = [bytes.fromhex(l.strip()) for l in open(corpus) if l.strip() and not l.startswith('#')] + sigs
-    reqs_a = [Req('P', pattern=pat_func, func=list(s)) for s in sigs]
+    sigs.append(None)      # the NULL POINTER as function (cleanup_ptr None in the model); kept last
+    reqs_a = [Req('P', pattern=pat_func, func=None if s is None else list(s)) for s in sigs]
     res_a = run_parallel(impl, [r.line() for r in reqs_a], nproc)
     rc, mod_a, err = vlib.run_lines(m_cleanup, [h8(s) for s in sigs], timeout=900)
     if len(mod_a) != len(sigs):
@@ -510,13 +671,16 @@ def run():
                 findings.append((rq, impl, r[0], r[3]))
             continue
         max_us = max(max_us, r[2])
-        if m == 'FAULT':
+        if toobig(r[1]) is not None:
+            rq.answer_units = toobig(r[1])
+            findings.append((rq, impl, 'length', '%%{func} answer of %d code units for a %d-byte function text' % (rq.answer_units, ln(s))))
+        elif m == 'FAULT':
             fault_a.append(rq)
         elif m.startswith('ok'):
             exp = h16(list(bytes.fromhex(m[3:])))
             if exp != r[1]:
                 dis_a.append((rq, r[1], exp))
-            elif len(un16(r[1])) > len(s):
+            elif len(un16(r[1])) > ln(s):
                 findings.append((rq, impl, 'length', 'output longer than input'))
     # ---- leg B: patterns vs the checked pattern model -------------------------------------------
     n_pat = 20000 if thorough else 3000
@@ -526,6 +690,11 @@ def run():
         reqs_b.append(r)
         for k, v in h.items():
             hist_b[k] = hist_b.get(k, 0) + v
+    # every placeholder x null file / function / category pointers; widths of 10+ digits (never a width: the model's
+    # to_int rejects them - C14_width_text_value - and so must the code)
+    reqs_null = null_sweep(rng, NAMES_DIFF) + (null_sweep(rng, NAMES_DIFF) if thorough else [])
+    reqs_width = width_family(rng, 400 if thorough else 60)
+    reqs_b += reqs_null + reqs_width
     res_b = run_parallel(impl, [r.line() for r in reqs_b], nproc)
     rc, mod_b, err = vlib.run_lines(m_safety, [r.model_line() for r in reqs_b], timeout=900)
     if len(mod_b) != len(reqs_b):
@@ -543,7 +712,11 @@ def run():
             fault_b.append((rq, m))
         else:
             _, exp, bound = m.split()
-            if exp != r[1]:
+            if toobig(r[1]) is not None:
+                if toobig(r[1]) > int(bound):
+                    rq.answer_units = toobig(r[1])
+                    findings.append((rq, impl, 'length', 'answer of %d code units, longer than the resource bound %s of the checked model' % (rq.answer_units, bound)))
+            elif exp != r[1]:
                 dis_b.append((rq, r[1], exp))
             else:
                 if len(un16(r[1])) > int(bound):
@@ -553,11 +726,13 @@ def run():
     # ---- leg C: PrettyFormatter table index / width arithmetic ---------------------------------
     reqs_c = []
     for _ in range(3000 if thorough else 400):
-        items = [(rng.randrange(5), list(rng.choice(ASCII_CATS + [b'c' * rng.randint(1, 40)])), gen_text(rng, 30)) for _ in range(rng.randint(1, 6))]
+        items = [(rng.randrange(5), or_null(rng, rng.choice(ASCII_CATS + [b'c' * rng.randint(1, 40)]), 0.1), gen_text(rng, 30)) for _ in range(rng.randint(1, 6))]
         reqs_c.append(Req('Y', flag=rng.randrange(2), maxw=rng.choice([0, 15, 15, 1, 5, 100, -3, 2000]), items=items))
+    sweep_other = null_sweep_other(rng)
+    reqs_c += [r for r in sweep_other if r.cmd == 'Y']
     res_c = run_parallel(impl, [r.line() for r in reqs_c], nproc)
     mlines = ['%d %d %d ' % (r.f['flag'], r.f['maxw'], len(r.f['items'])) +
-              ' '.join('%d %s %s' % (t, 'default' if bytes(c) == b'default' else h16(list(c)), h16(m)) for t, c, m in r.f['items']) for r in reqs_c]
+              ' '.join('%d %s %s' % (t, h16p(c), h16(m)) for t, c, m in r.f['items']) for r in reqs_c]
     rc, mod_c, err = vlib.run_lines(m_safety, mlines, ['pretty'], timeout=600)
     mod_c += ['?'] * (len(reqs_c) - len(mod_c))
     dis_c, fault_c = [], []
@@ -571,6 +746,10 @@ def run():
             fault_c.append((rq, m)); continue
         toks = r[1].split()
         outs = []
+        if any(toobig(t) is not None for t in toks):
+            rq.answer_units = max(toobig(t) or 0 for t in toks)
+            findings.append((rq, impl, 'length', 'PrettyFormatter answer of %d code units' % rq.answer_units))
+            continue
         for i in range(0, len(toks), 2):
             tm, o = un16(toks[i]), un16(toks[i + 1])
             outs.append(h16(o[len(tm) + 1:]) if o[:len(tm)] == tm else 'BAD-TIME-PREFIX')
@@ -586,7 +765,7 @@ def run():
         kinds_d[k] = kinds_d.get(k, 0) + 1
         if k == 'F':
             reqs_d.append(Req('P', pattern=u16(rng.choice(['%{func}', '%{function}', '%{func:<20!}', '[%{func}] %{message}'])),
-                              func=[x for x in gen_sig(rng, 40) if x], msg=gen_text(rng, 20)))
+                              func=or_null(rng, [x for x in gen_sig(rng, 40) if x], 0.03), msg=gen_text(rng, 20)))
         elif k == 'P':
             reqs_d.append(gen_pattern_req(rng, False, 200)[0])
         elif k in 'JS':
@@ -596,11 +775,17 @@ def run():
                               attrs=r0.f['attrs'] + ([(u16(rng.choice(['appname', 'os_name', 'host_name', 'line', 'message'])), gen_text(rng, 50))] if rng.random() < 0.4 else [])))
         elif k == 'C':
             reqs_d.append(Req('C', rules=u16(gen_rules(rng)), type=rng.randrange(5),
-                              cat=list(rng.choice(ASCII_CATS) if rng.random() < 0.6 else bytes(rng.randrange(1, 256) for _ in range(rng.randint(0, 256))))))
+                              cat=or_null(rng, rng.choice(ASCII_CATS) if rng.random() < 0.6 else bytes(rng.randrange(1, 256) for _ in range(rng.randint(0, 256))))))
         elif k == 'R':
             reqs_d.append(Req('R', idx=rng.randrange(12), msg=gen_text(rng, 400)))
         else:
             reqs_d.append(rng.choice(reqs_c))
+    # targeted families on the sanitized build: marker-only function texts (ASan: the strip loop must not read past the
+    # terminator), every placeholder (also time / thread ones) and every formatter / filter on null pointers, widths of
+    # 10+ digits (UBSan: no digit-by-digit accumulation into an int)
+    reqs_fam = [Req('P', pattern=u16(rng.choice(['%{func}', '%{func}', '%{func:>6}|%{function}'])), func=list(s)) for s in strip_sigs]
+    reqs_fam += reqs_null + null_sweep(rng, NAMES_EXT) + sweep_other + reqs_width
+    reqs_d += reqs_fam
     # long inputs: every string position once at each size
     nbig = 0
     for size in (big if thorough else big[1:]):
@@ -658,6 +843,11 @@ def run():
             if r[2] > SAN_BUDGET_S * 1e6:
                 slow += 1
                 findings.append((rq, san, 'slow', '%d us' % r[2]))
+            ans_big = max([toobig(t) or 0 for t in r[1].split()] + [0])
+            if ans_big and rq is not None and ans_big > answer_bound(rq):
+                rq.answer_units = ans_big
+                findings.append((rq, san, 'length', 'answer of %d code units for an input of %d units (bound from sizes and widths: %d)'
+                                 % (ans_big, rq.size(), answer_bound(rq))))
         elif r[0] in ('crash', 'timeout'):
             findings.append((rq, san, r[0], r[3]) if rq else (None, san, r[0], 'corpus line %s: %s' % (lines_d[i][:200], r[3])))
         elif r[0] == 'skipped':
@@ -686,6 +876,7 @@ def run():
 
     # ---- falsifying inputs: shrink and report ---------------------------------------------------
     seen = set()
+    findings.sort(key=lambda f: 0 if (f[1] == san and f[2] == 'crash') else 1)     # sanitizer reports first (stable)
     for rq, exe, kind, rep in findings:
         if len(seen) >= 3:
             break
@@ -741,6 +932,24 @@ def run():
     # ---- evidence ---------------------------------------------------------------------------------
     def has(s, b):
         return b in s
+    sigs_all, sigs = sigs, [x for x in sigs if x is not None]
+    all_reqs = reqs_a + reqs_b + reqs_c + reqs_d
+    null_hist = {k: sum(1 for r in all_reqs if r.cmd in ('P', 'J', 'S', 'C') and r.f[k] is None) for k in ('file', 'func', 'cat')}
+    null_hist['pretty_items'] = sum(1 for r in all_reqs if r.cmd == 'Y' for _, c, _ in r.f['items'] if c is None)
+    null_hist['all_three'] = sum(1 for r in all_reqs if r.cmd in ('P', 'J', 'S') and r.f['file'] is None and r.f['func'] is None and r.f['cat'] is None)
+
+    def placeholder_null_hits(reqs):
+        h = {}
+        for r in reqs:
+            if r.cmd != 'P' or not (r.f['file'] is None or r.f['func'] is None or r.f['cat'] is None):
+                continue
+            pt = ''.join(chr(u) if u < 128 else '?' for u in r.f['pattern'])
+            for nm, fld in (('%{file', 'file'), ('%{shortfile}', 'file'), ('%{shortfile:', 'file'), ('%{shortfile ', 'file'), ('%{function', 'func'),
+                            ('%{func}', 'func'), ('%{func:', 'func'), ('%{category', 'cat')):
+                if nm in pt and r.f[fld] is None:
+                    key = nm.strip('%{}: ') + ('+basedir' if nm.endswith(' ') else '')
+                    h[key] = h.get(key, 0) + 1
+        return h
     hit = {'operator': sum(has(s, b'operator') for s in sigs), 'operator_at_0': sum(s.startswith(b'operator') for s in sigs),
            'funcptr': sum((b')(' in s and b'(*' in s) for s in sigs), 'empty_parens_scope': sum(has(s, b'()::') for s in sigs),
            'lambda': sum(has(s, b'<lambda') for s in sigs), 'trailing_bracket': sum(s.endswith(b']') for s in sigs),
@@ -750,13 +959,15 @@ def run():
     evals = len(sigs) + len(reqs_b) + len(reqs_c) + len(lines_d) + len(reqs_star) + len(probes) + 1
     chk.cov.update({
         'evaluations': evals,
-        'distinct_nontrivial': len({s for s, r in zip(sigs, res_a) if r[0] == 'ok' and r[1] != h16(list(s))}) + nontrivial_b,
+        'distinct_nontrivial': len({s for s, r in zip(sigs_all, res_a) if s is not None and r[0] == 'ok' and r[1] != h16(list(s))}) + nontrivial_b,
         'rule': 'A: fragment-composed / mutated-real / random-byte signatures <= 4 KiB through %{func}, real vs checked cleanup model; '
                 'B: grammar-directed patterns (all tokens, conditionals, optional attributes, every fill/align/width/! form, malformed '
                 'specs, unterminated placeholders) x messages/attributes/paths, real vs checked pattern model and resource bound; '
                 'C: PrettyFormatter message sequences, real vs checked model; D: ASan+UBSan build over P/J/S/C/R/Y requests with '
                 'arbitrary bytes and every string position at sizes up to 64 KiB, per-input time budget; E: category rules with 8..40 stars x '
-                'matching / near-miss / missing categories <= 256 bytes under the 2 s budget; probes: width near INT_MAX '
+                'matching / near-miss / missing categories <= 256 bytes under the 2 s budget; families (plain+model AND sanitized): '
+                'function texts of which only * & blanks remain, every placeholder / formatter / filter x null file / function / '
+                'category pointers, format widths of 10+ digits; probes: width near INT_MAX '
                 'under ulimit -v, removal counts near INT_MAX under UBSan. non-trivial = output differs from the raw input',
         'func_cases': len(sigs), 'func_model_faults': len(fault_a), 'func_disagreements': len(dis_a),
         'func_length_histogram': {str(b): sum(1 for s in sigs if lo <= len(s) < b) for lo, b in ((0, 16), (16, 64), (64, 256), (256, 1024), (1024, 4097))},
@@ -768,6 +979,11 @@ def run():
         'sanitizer_max_input_size': max(r.size() for r in reqs_d), 'sanitizer_reports': sum(1 for f in findings if f[1] == san),
         'time_budget_s': BUDGET_S, 'time_budget_sanitized_s': SAN_BUDGET_S, 'long_inputs_rerun_on_plain_build': len(long_reqs), 'max_elapsed_us_plain': max_us, 'max_elapsed_us_sanitized': max_us_san, 'over_budget': slow, 'requests_not_run_after_repeated_crashes': skipped,
         'category_star_family_cases': len(reqs_star), 'category_star_family_max_elapsed_us': star_max_us,
+        'null_pointer_cases': null_hist, 'placeholder_meets_its_null_pointer': placeholder_null_hits(all_reqs),
+        'null_sweep_cases': len(reqs_null), 'marker_only_function_texts': len(strip_sigs),
+        'marker_only_after_cleanup_prefix': sum(1 for x in strip_sigs if x and set(x.split(b' ')[-1] or b'*') <= set(b'*&')),
+        'width_10plus_digit_cases': len(reqs_width), 'width_10plus_digit_distinct': len({tuple(r.f['pattern']) for r in reqs_width}),
+        'answers_refused_as_too_big': sum(1 for r in all_reqs if r.answer_units is not None),
         'probes': probes, 'width_cap': WIDTH_CAP})
     chk.samples = [{'signature': show8(sigs[i][:80]), 'impl': show16(un16(res_a[i][1] or '-')[:80]), 'model': mod_a[i][:60]} for i in (0, len(sigs) // 3)
                    if res_a[i][0] == 'ok'] + \
@@ -801,7 +1017,7 @@ def replay(path):
     if f[0] == 'P':
         m = vlib.build_model('safety')
         # model line: category and file as UTF-16 of the same bytes
-        w = lambda h: '-' if h == '-' else ''.join('00' + h[i:i + 2] for i in range(0, len(h), 2))
+        w = lambda h: h if h in ('-', '~') else ''.join('00' + h[i:i + 2] for i in range(0, len(h), 2))
         ml = ' '.join([f[1], f[2], f[3], w(f[4]), w(f[5])] + f[6:])
         print('checked model', vlib.run_lines(m, [ml])[1])
         if f[1] == h16(u16('%{func}')):
